@@ -135,6 +135,24 @@ theorem components_give_blocks (A : Matrix n n K) (f g : n → ι)
 
 end Algebra
 
+/-! ### non-vacuity of Part A: the hypotheses are satisfiable with concrete data -/
+
+example : (blockDiagonal' (fun _ : Fin 2 => (1 : Matrix (Fin 3) (Fin 3) ℚ)))⁻¹
+    = blockDiagonal' (fun _ => (1 : Matrix (Fin 3) (Fin 3) ℚ)⁻¹) :=
+  blockdiag_inv _ (fun _ => isUnit_one)
+
+/-- the identity, re-indexed along the fibres of `id`, is block diagonal with 1×1 identity blocks -/
+example : IsUnit (1 : Matrix (Fin 3) (Fin 3) ℚ) :=
+  (permuted_blockdiag_inv (1 : Matrix (Fin 3) (Fin 3) ℚ)
+    (Equiv.sigmaFiberEquiv (id : Fin 3 → Fin 3)) (Equiv.sigmaFiberEquiv (id : Fin 3 → Fin 3))
+    (fun _ => 1) (by rw [Matrix.submatrix_one_equiv]; exact (blockDiagonal'_one).symm)
+    (fun _ => isUnit_one)).1
+
+/-- the diagonal pattern of the identity is closed under `f = g = id`: three 1×1 blocks -/
+example : Fintype.card {i : Fin 3 // id i = 0} = Fintype.card {j : Fin 3 // id j = 0} :=
+  (components_give_blocks (1 : Matrix (Fin 3) (Fin 3) ℚ) id id
+    (by intro i j h; by_contra hne; exact h (Matrix.one_apply_ne hne)) isUnit_one 0).1
+
 /-! ## Part B — the executable model -/
 
 /-- List-level statement about the exact Gauss–Jordan elimination: whenever it returns `some B`,
